@@ -9,20 +9,21 @@ Proof. unfold new_f; simpl. rewrite <- f_idx_In. apply next_idx_fresh. Qed.
 Lemma new_s_fresh g c : ~ In (SN (new_s good g c)) (anodes g).
 Proof. unfold new_s; simpl. rewrite <- s_idx_In. apply next_idx_fresh. Qed.
 
-Lemma add_f_ok ts g c d g' c' d' st :
-  reg_ok g c -> add_f good ts (g, c, d) = ((g', c', d'), st) -> reg_ok g' c' /\ reg g' = reg g /\ d' = d /\ idom g' = idom g.
+Lemma add_f_ok ts ats g c d g' c' d' st :
+  reg_ok g c -> add_f good ts ats (g, c, d) = ((g', c', d'), st) -> reg_ok g' c' /\ reg g' = reg g /\ d' = d /\ idom g' = idom g.
 Proof.
   intros H E. unfold add_f in E.
-  destruct (negb (nodupb ts)); [inversion E; subst; auto|].
+  destruct (negb (nodupb ts && anodupb ats)); [inversion E; subst; auto|].
   destruct (existsb _ (fr c)); [inversion E; subst; auto|].
-  destruct (negb (subsetb ts (onodes g))); [inversion E; subst; auto|].
+  destruct (negb (subsetb ts (onodes g) && _)); [inversion E; subst; auto|].
   pose proof (new_f_fresh g c) as Hfresh.
   remember (new_f good g c) as i eqn:Hi. clear Hi.
   inversion E; subst; clear E. split; [|auto].
-  destruct H as [H1 H2 H3 H4 H5 H6]. constructor; simpl.
+  destruct H as [H1 H2 H3 H3a H4 H5 H5a H6 H6a]. constructor; simpl.
   - intros j. rewrite keys_set_key, adda_In, H1.
     split; [intros [->|X]; auto|intros [X|X]; [inversion X; auto|auto]].
   - intros j. rewrite adda_In, H2. split; [auto|intros [X|X]; [discriminate|auto]].
+  - intros j. rewrite !lookup_set_key. destruct (Nat.eqb j i); simpl; auto.
   - intros j. rewrite !lookup_set_key. destruct (Nat.eqb j i); simpl; auto.
   - exact H4.
   - intros j ts0. rewrite lookup_set_key. destruct (Nat.eqb_spec j i) as [->|N]; intros X.
@@ -36,12 +37,21 @@ Proof.
       * apply children_In, fold_addae_In in Hx. destruct Hx as [Hx|[t [Ht Hx]]].
         -- apply B, children_In; auto.
         -- inversion Hx; congruence.
+  - intros j ats0. rewrite lookup_set_key. destruct (Nat.eqb_spec j i) as [->|N]; intros X x Hx.
+    + inversion X; subst ats0. apply achildren_In, fold_addaae_In in Hx. destruct Hx as [Hx|[t [Ht Hx]]].
+      * exfalso; apply Hfresh; eapply H6a; eauto.
+      * inversion Hx; subst; auto.
+    + apply achildren_In, fold_addaae_In in Hx. destruct Hx as [Hx|[t [Ht Hx]]].
+      * apply (H5a j ats0 X), achildren_In; auto.
+      * inversion Hx; congruence.
   - intros a t Hx. apply fold_addae_In in Hx. rewrite adda_In.
     destruct Hx as [Hx|[t' [_ Hx]]]; [right; eapply H6; eauto|left; inversion Hx; auto].
+  - intros a t Hx. apply fold_addaae_In in Hx. rewrite adda_In.
+    destruct Hx as [Hx|[t' [_ Hx]]]; [right; eapply H6a; eauto|left; inversion Hx; auto].
 Qed.
 
 Lemma add_fs_cons k ts rest s :
-  add_fs k (ts :: rest) s = (let '(s', st) := add_f k ts s in match st with 0 => add_fs k rest s' | _ => (s', st) end).
+  add_fs k (ts :: rest) s = (let '(s', st) := add_f k ts [] s in match st with 0 => add_fs k rest s' | _ => (s', st) end).
 Proof. reflexivity. Qed.
 
 Lemma add_fs_ok tss : forall g c d g' c' d' st,
@@ -49,8 +59,8 @@ Lemma add_fs_ok tss : forall g c d g' c' d' st,
 Proof.
   induction tss as [|ts rest IH]; intros g c d g' c' d' st H E.
   - simpl in E. inversion E; subst; auto.
-  - rewrite add_fs_cons in E. destruct (add_f good ts (g, c, d)) as [[[g1 c1] d1] st1] eqn:E1.
-    destruct (add_f_ok _ _ _ _ _ _ _ _ H E1) as [K1 [K2 [K3 K4]]].
+  - rewrite add_fs_cons in E. destruct (add_f good ts [] (g, c, d)) as [[[g1 c1] d1] st1] eqn:E1.
+    destruct (add_f_ok _ _ _ _ _ _ _ _ _ H E1) as [K1 [K2 [K3 K4]]].
     destruct st1.
     + destruct (IH _ _ _ _ _ _ _ K1 E) as [L1 [L2 [L3 L4]]]. subst. split; [auto|]. split; [congruence|]. split; [auto|congruence].
     + inversion E; subst; auto.
@@ -64,55 +74,70 @@ Proof.
   pose proof (new_s_fresh g c) as Hfresh.
   remember (new_s good g c) as i eqn:Hi. clear Hi.
   inversion E; subst; clear E. split; [|auto].
-  destruct H as [H1 H2 H3 H4 H5 H6]. constructor; simpl.
+  destruct H as [H1 H2 H3 H3a H4 H5 H5a H6 H6a]. constructor; simpl.
   - intros j. rewrite adda_In, H1. split; [auto|intros [X|X]; [discriminate|auto]].
   - intros j. rewrite keys_set_key, adda_In, H2.
     split; [intros [->|X]; auto|intros [X|X]; [inversion X; auto|auto]].
   - exact H3.
+  - exact H3a.
   - intros j. rewrite !lookup_set_key. destruct (Nat.eqb j i); simpl; auto.
   - intros j ts0 X. destruct (H5 j ts0 X) as [A B]. split; intros x Hx.
     + apply children_In, fold_addae_In. left. apply children_In. auto.
     + apply children_In, fold_addae_In in Hx. destruct Hx as [Hx|[t [Ht Hx]]].
       * apply B, children_In; auto.
       * inversion Hx.
+  - exact H5a.
   - intros a t Hx. apply fold_addae_In in Hx. rewrite adda_In.
     destruct Hx as [Hx|[t' [_ Hx]]]; [right; eapply H6; eauto|left; inversion Hx; auto].
+  - intros a t Hx. rewrite adda_In. right. eapply H6a; eauto.
 Qed.
 
 (* removing a node that is present, and unregistering it *)
 Lemma drop_ok a g c : reg_ok g c -> reg_ok (drop_node a g) (unregister false a c).
 Proof.
-  intros [H1 H2 H3 H4 H5 H6]. destruct a as [i|i]; constructor;
-    unfold drop_node, unregister, set_g_aug; cbn [anodes aedges gF gS fr sr].
+  intros [H1 H2 H3 H3a H4 H5 H5a H6 H6a].
+  assert (E1 : forall b t, In (b, t) (filter (fun e => negb (aug_eqb a (fst e))) (aedges g)) ->
+                           In b (aremove a (anodes g))).
+  { intros b t Hx. apply filter_In in Hx. destruct Hx as [Hx Hn]. cbn [fst] in Hn.
+    apply negb_true_iff, aug_eqb_neq in Hn. apply aremove_In. split; [eapply H6; eauto|congruence]. }
+  assert (E2 : forall b t, In (b, t) (filter (fun e => negb (aug_eqb a (fst e)) && negb (aug_eqb a (snd e))) (aaedges g)) ->
+                           In b (aremove a (anodes g))).
+  { intros b t Hx. apply filter_In in Hx. destruct Hx as [Hx Hn]. cbn [fst snd] in Hn.
+    apply andb_true_iff in Hn. destruct Hn as [Hn _].
+    apply negb_true_iff, aug_eqb_neq in Hn. apply aremove_In. split; [eapply H6a; eauto|congruence]. }
+  assert (E3 : forall j ats, lookup j (gFa g) = Some ats ->
+     incl (achildren (FN j) (filter (fun e => negb (aug_eqb a (fst e)) && negb (aug_eqb a (snd e))) (aaedges g))) ats).
+  { intros j ats X x Hx. apply achildren_In, filter_In in Hx. apply (H5a j ats X), achildren_In. tauto. }
+  destruct a as [i|i]; constructor;
+    unfold drop_node, unregister, set_g_aug; cbn [anodes aedges aaedges gF gFa gS fr sr]; auto.
   - intros j. rewrite keys_remove_key, aremove_In, H1. split; intros [A B]; split; auto; congruence.
   - intros j. rewrite aremove_In, H2. split; [intros A; split; [auto|discriminate]|tauto].
   - intros j. rewrite !lookup_remove_key. destruct (Nat.eqb j i); simpl; auto.
-  - exact H4.
+  - intros j. rewrite !lookup_remove_key. destruct (Nat.eqb j i); simpl; auto.
   - intros j ts. rewrite lookup_remove_key. destruct (Nat.eqb_spec j i) as [->|N]; [discriminate|]. intros X.
     destruct (H5 j ts X) as [A B]. split; intros x Hx.
     + apply children_In, filter_In. split; [apply children_In; auto|]. cbn [fst].
       apply negb_true_iff. apply (proj2 (aug_eqb_neq (FN i) (FN j))). congruence.
     + apply children_In, filter_In in Hx. apply B, children_In. tauto.
-  - intros a t Hx. apply filter_In in Hx. destruct Hx as [Hx Hn]. cbn [fst] in Hn.
-    apply negb_true_iff, aug_eqb_neq in Hn. apply aremove_In. split; [eapply H6; eauto|congruence].
+  - intros j ats. rewrite lookup_remove_key. destruct (Nat.eqb_spec j i) as [->|N]; [discriminate|]. apply E3.
   - intros j. rewrite aremove_In, H1. split; [intros A; split; [auto|discriminate]|tauto].
   - intros j. rewrite keys_remove_key, aremove_In, H2. split; intros [A B]; split; auto; congruence.
-  - exact H3.
   - intros j. rewrite !lookup_remove_key. destruct (Nat.eqb j i); simpl; auto.
   - intros j ts X. destruct (H5 j ts X) as [A B]. split; intros x Hx.
     + apply children_In, filter_In. split; [apply children_In; auto|]. simpl. reflexivity.
     + apply children_In, filter_In in Hx. apply B, children_In. tauto.
-  - intros a t Hx. apply filter_In in Hx. destruct Hx as [Hx Hn]. cbn [fst] in Hn.
-    apply negb_true_iff, aug_eqb_neq in Hn. apply aremove_In. split; [eapply H6; eauto|congruence].
 Qed.
 
 (* unregistering a node that is absent changes nothing the invariant can see *)
 Lemma unregister_absent_ok a g c : reg_ok g c -> ~ In a (anodes g) -> reg_ok g (unregister false a c).
 Proof.
-  intros [H1 H2 H3 H4 H5 H6] Ha. destruct a as [i|i]; constructor; simpl; auto.
+  intros [H1 H2 H3 H3a H4 H5 H5a H6 H6a] Ha. destruct a as [i|i]; constructor; simpl; auto.
   - intros j. rewrite keys_remove_key, H1. split; [tauto|]. intros A. split; auto. intros ->. auto.
   - intros j. rewrite lookup_remove_key. destruct (Nat.eqb_spec j i) as [->|N]; [|apply H3]. simpl.
     rewrite <- H3. assert (X : ~ In i (keys (fr c))) by (rewrite H1; auto).
+    apply lookup_none in X. rewrite X. reflexivity.
+  - intros j. rewrite lookup_remove_key. destruct (Nat.eqb_spec j i) as [->|N]; [|apply H3a]. simpl.
+    rewrite <- H3a. assert (X : ~ In i (keys (fr c))) by (rewrite H1; auto).
     apply lookup_none in X. rewrite X. reflexivity.
   - intros j. rewrite keys_remove_key, H2. split; [tauto|]. intros A. split; auto. intros ->. auto.
   - intros j. rewrite lookup_remove_key. destruct (Nat.eqb_spec j i) as [->|N]; [|apply H4].
@@ -148,7 +173,7 @@ Lemma lstep_ok l g c d g' c' d' st :
   reg_ok g c -> lstep good l (g, c, d) = ((g', c', d'), st) -> reg_ok g' c' /\ reg g' = reg g /\ idom g' = idom g.
 Proof.
   intros H E. destruct l; simpl in E.
-  - destruct (add_f_ok _ _ _ _ _ _ _ _ H E) as [A [B [_ D]]]; (split; [exact A|split; [exact B|exact D]]).
+  - destruct (add_f_ok _ _ _ _ _ _ _ _ _ H E) as [A [B [_ D]]]; (split; [exact A|split; [exact B|exact D]]).
   - destruct (add_fs_ok _ _ _ _ _ _ _ _ H E) as [A [B [_ D]]]; (split; [exact A|split; [exact B|exact D]]).
   - exact (add_s_ok _ _ _ _ _ _ _ _ _ _ H E).
   - destruct (remove_aug_ok _ _ _ _ _ _ _ _ H E) as [A [B [_ D]]]; (split; [exact A|split; [exact B|exact D]]).
